@@ -379,7 +379,7 @@ class Interp:
             pos, kwl = list(args), dict(kwargs)
             for p_ in names[len(pos):]:
                 if p_ in kwl:
-                    pos.append(kwl.pop(p_))
+                    pos.append(kwl[p_])  # also left under its name: a stub may look an argument up either way
                 else:
                     break
             return stubs[fi.short](self, clo, pos, kwl, st, node)
